@@ -20,6 +20,17 @@ WORK = VERIF / ".work"
 PY = os.environ.get("VERIF_PYTHON", "/venv/bin/python")
 
 
+def die_with_parent():
+    """preexec_fn: the child gets SIGKILL when the process that spawned it dies (no orphaned wedged interpreters)"""
+    try:
+        import ctypes
+        import signal
+
+        ctypes.CDLL("libc.so.6", use_errno=True).prctl(1, signal.SIGKILL, 0, 0, 0)  # PR_SET_PDEATHSIG
+    except Exception:
+        pass
+
+
 def _iter_sources():
     src = REPO / "src"
     for p in sorted(src.rglob("*")):
